@@ -186,17 +186,28 @@ def run(R):
                           "every character push of the tokenizer loop is dominated by the `not in a comment` edge")
     # the comment flag: the bool local set to `true` where the last token is matched as the operator Dual('-', '-')
     cl = []
-    for sw in sorted(tf.reach):
-        t = tf.blocks[sw]["term"]
-        if t["k"] == "switch" and t["discr"]["k"] in ("copy", "move") and \
-                any(isinstance(e, dict) and e.get("d") == "Dual" for e in t["discr"]["pl"]["p"]) and any(v == "45" for v, _ in t["targets"]):
-            tgt = [b for v, b in t["targets"] if v == "45"][0]
-            for i, st in tf.stmts():
-                if tf.dominates(tgt, i) and st["k"] == "assign" and not st["pl"]["p"] and st["rv"]["k"] == "use" and \
-                        st["rv"]["op"]["k"] == "const" and st["rv"]["op"].get("v") == "true" and tf.local_ty(st["pl"]["l"]) == "bool" and \
-                        tf.local_name(st["pl"]["l"]):
-                    if st["pl"]["l"] not in cl:
+    for i, st in tf.stmts():
+        if st["k"] == "assign" and not st["pl"]["p"] and st["rv"]["k"] == "use" and st["rv"]["op"]["k"] == "const" and \
+                st["rv"]["op"].get("v") == "true" and tf.local_ty(st["pl"]["l"]) == "bool" and tf.local_name(st["pl"]["l"]):
+            # set to true exactly where the last token was matched as the operator Dual('-', '-') (directly or through a `matches!` flag)
+            for (gsw, lab, tgt) in F.guards_dominating(tf, i):
+                d = tf.blocks[gsw]["term"]["discr"]
+                if d["k"] in ("copy", "move") and lab == "45" and any(isinstance(e, dict) and e.get("d") == "Dual" for e in d["pl"]["p"]):
+                    if st["pl"]["l"] not in cl and PR.loop_of(tf, i):
                         cl.append(st["pl"]["l"])
+    # of these, the comment state is the one that survives the iteration (a per-character `matches!` temporary is not)
+    carried = [l for l in cl if any(st2["k"] == "assign" and st2["pl"]["l"] == l and st2["rv"]["k"] == "use" and st2["rv"]["op"]["k"] == "const"
+                                    and st2["rv"]["op"].get("v") == "false" for _, st2 in tf.stmts())]
+    if carried:
+        named = [l for l in carried if not any(st3["k"] == "assign" and st3["rv"]["k"] == "use" and st3["rv"]["op"]["k"] in ("copy", "move")
+                                               and not st3["rv"]["op"]["pl"]["p"] and st3["rv"]["op"]["pl"]["l"] == l and st3["pl"]["l"] in carried
+                                               for _, st3 in tf.stmts())]
+        cl = named or carried
+        # a `matches!` temporary is assigned true AND false in the same iteration without being loop carried: prefer the local that is
+        # also assigned outside the match (reset at the line break / initialised before the loop)
+        outside = [l for l in cl if any(not PR.loop_of(tf, i2) for i2, st2 in tf.stmts() if st2["k"] == "assign" and st2["pl"]["l"] == l)]
+        if outside:
+            cl = outside
     csw = []
     for sw in sorted(tf.reach):
         t = tf.blocks[sw]["term"]
